@@ -365,6 +365,9 @@ pub struct Sim {
     pub dead: bool,
     /// `Ev::Close` has been logged (the ring descriptor was found closed by a later ring call).
     pub close_logged: bool,
+    /// Buffer groups whose ring memory was no longer a live heap block (according to the tracking
+    /// allocator, when it is enabled) at the moment they were unregistered.
+    pub pbuf_unregistered_after_free: Vec<u16>,
 }
 
 unsafe impl Send for Sim {}
@@ -872,6 +875,7 @@ unsafe fn hook_setup(entries: c_uint, p: *mut c_void) -> Option<c_int> {
         poison_free_slots: false,
         dead: false,
         close_logged: false,
+        pbuf_unregistered_after_free: Vec::new(),
     };
     if !cfg.unmappable {
         sim.a32(sim.sq_ring, SQ_HEAD).store(cfg.sq_start, Ordering::SeqCst);
@@ -1050,7 +1054,15 @@ unsafe fn hook_register(fd: c_int, opcode: c_uint, arg: *const c_void, nr: c_uin
         UNREGISTER_PBUF_RING => {
             let r = unsafe { (arg as *const BufReg).read() };
             detail = format!("bgid={}", r.bgid);
-            if sim.pbufs.remove(&r.bgid).is_some() { 0 } else { -libc::ENOENT }
+            match sim.pbufs.remove(&r.bgid) {
+                Some(ring) => {
+                    if !crate::alloc::is_live(ring.addr as usize, 1) {
+                        sim.pbuf_unregistered_after_free.push(r.bgid);
+                    }
+                    0
+                }
+                None => -libc::ENOENT,
+            }
         }
         REGISTER_SYNC_CANCEL => {
             let r = unsafe { (arg as *const SyncCancelReg).read() };
